@@ -1,6 +1,7 @@
 import FrappyDrive.Util
 import FrappyModel.Spec.C11
 import FrappyModel.Generated.C11
+import FrappyModel.Client.Shutdown
 /- line-protocol glue for C11 -/
 namespace Frappy.Drive.C11
 open Lean Frappy.Drive Frappy.Client.Match Frappy.Spec.C11
@@ -35,11 +36,11 @@ def parseLabel (known : List String) (j : Json) : R (Label String) := do
     let (err, rest) := splitErr text
     return .peerEmit err rest sp (isEvent known text sp || (← bad.getBool?)) (← optNat re)
   | [.str "rxRead"] => return .rxRead
-  | [.str "rxMatch", f] => return .rxMatch (← optNat f)
+  | [.str "rxMatch", f, tk] => return .rxMatch (← optNat f) (← (← arr tk).mapM (·.getNat?))
   | [.str "rxSetEvent"] => return .rxSetEvent
   | [.str "rxRequeue"] => return .rxRequeue
   | [.str "rxCleanPop"] => return .rxCleanPop
-  | [.str "rxCleanup", b] => return .rxCleanup (← b.getBool?)
+  | [.str "rxCleanup", b, tk] => return .rxCleanup (← b.getBool?) (← (← arr tk).mapM (·.getNat?))
   | [.str "closeBegin"] => return .closeBegin
   | [.str "closeTxq"] => return .closeTxq
   | [.str "closeActive"] => return .closeActive
@@ -84,8 +85,75 @@ def verdictStr : Verdict → String
 
 def lastState (l : List (St String)) : St String := l.getLast?.getD {}
 
+/-! ### shutdown protocol model -/
+section
+open Frappy.Client.Shutdown
+
+def dpcName : DPc → String
+  | .d0 => "d0" | .d1 => "d1" | .d2 => "d2" | .d3 => "d3" | .d4 => "d4" | .d5 => "d5" | .d6 => "d6"
+  | .d7 => "d7" | .d8 => "d8" | .d9 => "d9" | .d10 => "d10" | .d11 => "d11" | .fin => "fin"
+
+def allDPc : List DPc := [.d0, .d1, .d2, .d3, .d4, .d5, .d6, .d7, .d8, .d9, .d10, .d11, .fin]
+
+def parseDPc (s : String) : R DPc :=
+  match allDPc.find? (fun p => dpcName p == s) with
+  | some p => pure p
+  | none => throw s!"bad program point {s}"
+
+def txName : TxPc → String
+  | .check => "check" | .get => "get" | .proc => "proc" | .x0 => "x0" | .disc p => dpcName p
+
+def rxName : RxPc → String
+  | .check => "check" | .read => "read" | .f0 => "f0" | .disc p => dpcName p
+
+def parseAct (j : Json) : R Act := do
+  let a ← arr j
+  match a with
+  | [.str "put"] => return .put
+  | [.str "drop"] => return .drop
+  | [.str "userBegin"] => return .userBegin
+  | [.str "user", p] => return .user (← parseDPc (← p.getStr?))
+  | [.str "tx", b] => return .tx (← b.getBool?)
+  | [.str "rx", b] => return .rx (← b.getBool?)
+  | _ => throw s!"bad act {j.compress}"
+
+def shSummary (s : Sh) : Json :=
+  Json.mkObj [("tx", Json.str (txName s.tx)), ("rx", Json.str (rxName s.rx)),
+    ("users", Json.mkObj (allDPc.filterMap (fun p => if s.users p > 0 then some (dpcName p, jnat (s.users p)) else none))),
+    ("txq", jarr (s.txq.map Json.bool)), ("running", Json.bool s.running), ("txAttr", Json.bool s.txAttr),
+    ("rxAttr", Json.bool s.rxAttr), ("allDone", Json.bool (allDone s)), ("canMove", Json.bool (canMove s))]
+
+/-- replay acts; each item is `{"a": act, "pc": expected point of the acting worker after the step (optional)}` -/
+def shReplay : Sh → List Json → Nat → R Json
+  | s, [], _ => return Json.mkObj [("refused_at", Json.null), ("mismatch_at", Json.null), ("final", shSummary s)]
+  | s, j :: rest, i => do
+    let act ← parseAct (← fld j "a")
+    match step s act with
+    | none => return Json.mkObj [("refused_at", jnat i), ("mismatch_at", Json.null), ("final", shSummary s)]
+    | some s' =>
+      let want := (j.getObjValAs? String "pc").toOption
+      let got := match act with
+        | .tx _ => some (txName s'.tx)
+        | .rx _ => some (rxName s'.rx)
+        | .user _ =>
+          -- a user thread must now be at the expected point
+          match want with
+          | some w => if allDPc.any (fun p => dpcName p == w && s'.users p > 0) then some w else some "nobody-there"
+          | none => none
+        | _ => none
+      match want, got with
+      | some w, some g =>
+        if w == g then shReplay s' rest (i + 1)
+        else return Json.mkObj [("refused_at", Json.null), ("mismatch_at", jnat i), ("final", shSummary s'),
+                                ("want", Json.str w), ("got", Json.str g)]
+      | _, _ => shReplay s' rest (i + 1)
+
+end
+
 def handle (j : Json) : R Json := do
   let k ← fldStr j "k"
+  if k == "shutdown_replay" then
+    return ← shReplay {} (← fldArr j "acts") 0
   let known ← fldStrs j "known"
   let labels ← (← fldArr j "labels").mapM (parseLabel known)
   match k with
